@@ -6,6 +6,10 @@ rows = []
 for f in sorted(glob.glob(os.path.join(HERE, "seeded", "*", "meta.json"))):
     m = json.load(open(f)); name = os.path.basename(os.path.dirname(f)); v = m.get("verified", {})
     det = ", ".join(v.get("detected_by", [])) or "**MISSED**"
+    if m.get("retired"):
+        rows.append(f"| {name} | {m['property']} | {m['summary'].replace('|', '/')} | {m['needs'].replace('|', '/')[:300]} | retired | "
+                    f"(was: {det}) | {m.get('history', 'detected on the first run')} RETIRED: {m['retired']} |")
+        continue
     sigs = []
     for k, c in v.get("checks", {}).items():
         sigs += [s.split(" occurrences")[0] for s in c.get("signatures", [])[:1]]
@@ -18,7 +22,7 @@ Each directory `seeded/<name>/` holds `patch.diff`, a demonstration `demo.py` (e
 the change) and `meta.json` (what it breaks, what it needs to manifest, what was run). All were written by fresh
 sub-agents that saw only the property text and a scratch worktree; each was confirmed by `tools/run_seeded.py --suite`
 (demo both ways, pinned suite still 1638/1638 with the change, checks run against the patched scratch worktree via
-`VERIF_REPO`). None is ever applied to /repo. {len(rows)} changes, {sum('MISSED' not in r.split('|')[6] for r in rows)} detected by the quick tier of the property's own check.
+`VERIF_REPO`). None is ever applied to /repo. {len(rows)} changes ({sum('| retired |' in r for r in rows)} retired because a later repair of the library made the change harmless), {sum('MISSED' not in r.split('|')[6] and '| retired |' not in r for r in rows)} of the others detected by the quick tier of the property's own check. The `history` column says what had to be strengthened when a change was first missed.
 
 | name | property | change | needs | confirmation | detected by (first signature) | history |
 |---|---|---|---|---|---|---|
